@@ -157,9 +157,12 @@ def x10_seq(h):
         if x < 0.15:
             (wl, wc) = x10_cell(h)
             emit("x10 %d %d %d" % (rng.choice([64, 65]), wl, wc)); count(feat, "x10wheel-in-drag")
-        elif x < 0.25:
+        elif x < 0.19:
+            # a report libtermkey cannot classify (horizontal wheel), or bare motion with no button (= release + motion bit)
+            emit("x10 %d %d %d" % (rng.choice([66, 67, 35, 35 + 4]), l, c)); count(feat, "x10odd")
+        elif x < 0.29:
             emit("x10 %d %d %d" % (rng.choice([0, 1, 2]), l, c)); count(feat, "x10second-button")
-        elif x < 0.32:
+        elif x < 0.36:
             top_action(h)
         if rng.random() < 0.4:
             l, c = min(max(l + rng.choice([-1, 0, 1]), 0), 93), min(max(c + rng.choice([-1, 0, 1]), 0), 93)
